@@ -6,6 +6,8 @@ import (
 	"fmt"
 	"regexp"
 	"strings"
+	"verif/harness/exprpos"
+	"verif/harness/props/c03"
 	"verif/harness/props/c04"
 
 	"github.com/runreveal/pql/parser"
@@ -89,6 +91,27 @@ func generate(w *mon.W) {
 	// of the skeleton programs (most do not compile; what does must be well formed)
 	for _, src := range c04.PlacementSources() {
 		do(src, nil)
+	}
+	// the directed join families of C03, and typed expressions at every
+	// expression position (join conditions included)
+	for _, p := range c03.DirectedPipelines(w.Seed, w.Pick(1_500, 40_000)) {
+		do(Print(&Program{Stmts: []*Stmt{{Pipe: p}}}, Layout{Mode: 0}).Src, nil)
+	}
+	{
+		prng := gen.RNG(w.Seed, "c05pos")
+		for i := 0; i < w.Pick(3_000, 100_000); i++ {
+			g := &gen.ExprGen{Rng: prng, Cols: gen.DefaultCols(), IllTyped: 8}
+			pos := exprpos.Positions[i%len(exprpos.Positions)]
+			if pos == "let" || pos == "let-chain" {
+				g.NoCols = true
+			}
+			x := g.Gen(gen.Ty(prng.Intn(3)), 1+prng.Intn(5))
+			if pos == "join-on" || pos == "join-on-nested" {
+				// every column on a random side: comparisons and in-tests across the sides
+				x = freeSides(x, prng)
+			}
+			do(Print(exprpos.Build(pos, Parenthesize(x, nil)), Layout{Mode: 0}).Src, nil)
+		}
 	}
 	rng := gen.RNG(w.Seed, "c05")
 	// typed expression programs
@@ -349,4 +372,24 @@ func selsOf(st *sqlmini.Stmt) []*sqlmini.Select {
 		out = append(out, c.Sel)
 	}
 	return out
+}
+
+// freeSides qualifies every column with $left or $right at random.
+func freeSides(x *E, rng interface{ Intn(int) int }) *E {
+	c := *x
+	if x.K == "name" {
+		if len(x.Parts) == 1 && !x.Parts[0].Quoted {
+			switch x.Parts[0].Name {
+			case "true", "false", "null":
+				return &c
+			}
+		}
+		c.Parts = append([]Ident{{Name: []string{"$left", "$right"}[rng.Intn(2)]}}, x.Parts...)
+		return &c
+	}
+	c.Kids = nil
+	for _, k := range x.Kids {
+		c.Kids = append(c.Kids, freeSides(k, rng))
+	}
+	return &c
 }
